@@ -1,7 +1,7 @@
 #!/usr/bin/env python3
 """Regenerates the TLC configs of RateLimit (run in this directory)."""
 INV = ("TypeOK OneChargePerQuestion DropIsSilent ClientWithinBudget NoSharedBucket RememberedIsOwn ExemptNeverLimited\n"
-       "  ReplyCookieIsOwn AnswerCarriesCookie BadCookieSound VerifiedIsFree HandoffOnlyInline")
+       "  ReplyCookieIsOwn AnswerCarriesCookie BadCookieSound VerifiedIsFree HandoffOnlyInline SameOutcomeAcrossEntries")
 ACT = "DropLeavesNoTrace EvictionOnlyResets BucketIsolation ExemptUntouched TokensNeverRefillWithoutTime"
 
 
@@ -10,9 +10,9 @@ def S(xs):
 
 
 DEF = dict(Procs=[1], Clients=["c1", "c2"], Forms=["v4"], CCs=["a"], SVs=["bare", "good", "bad"], Shorts=[], Protos=["udp", "tcp"],
-           Questions=["q1"], Entries=["msg", "wire", "inline"], Exempts=[], Odds=[False], Burst=2, StoreCap=2, EntryBurst=0,
+           Questions=["q1"], Entries=["msg", "wire", "inline"], Exempts=[], Odds=[False], Burst=2, StoreCap=2, EntryBurst=0, BigQs=[],
            MaxOps=3, MaxPend=1, MaxAge=2, TickSet=[1], CleanSet=[2], Atomic="call", KeyByForm=True,
-           ChargeOnReplay=False, EchoCached=False, ReuseEvicted=False, SharedKey=False)
+           ChargeOnReplay=False, EchoCached=False, ReuseEvicted=False, SharedKey=False, ChargeBeforeFit=False)
 
 
 def consts(**kw):
@@ -71,6 +71,11 @@ mc("Entry", consts(Clients=["c1", "c2"], CCs=[], SVs=[], Protos=["udp"], Questio
                    MaxOps=4, TickSet=[1], CleanSet=[]))
 mc("EntryQ", consts(Clients=["c1"], CCs=[], SVs=[], Protos=["udp"], Questions=["q1", "q2"], Exempts=["internal"], EntryBurst=1,
                     MaxOps=4, TickSet=[1], CleanSet=[]))
+# answers that do not fit a plain UDP client: the wire ladder declines before the entry limiter is charged
+BIG = dict(Clients=["c1"], CCs=[], SVs=[], Protos=["udp", "tcp"], Questions=["big1"], BigQs=["big1"], Burst=3, MaxOps=4, TickSet=[1],
+           CleanSet=[])
+mc("Big", consts(EntryBurst=1, **BIG))
+mc("Big2", consts(EntryBurst=2, **dict(BIG, Questions=["big1", "q1"], MaxOps=4, Clients=["c1", "c2"])))
 # both representations of one address: the code keys the store by the raw bytes -> ClientWithinBudget is EXPECTED to fail
 mc("Forms", consts(Clients=["c1"], Forms=["v4", "v6m"], CCs=[], SVs=[], Protos=["udp"], Questions=["fresh"], Entries=["msg"],
                    MaxOps=4, TickSet=[], CleanSet=[]))
@@ -94,6 +99,8 @@ mc("NegReuse", consts(Clients=["c1", "c2"], CCs=["a"], SVs=["bare"], Protos=["ud
                       MaxOps=3, TickSet=[], CleanSet=[], ReuseEvicted=True))
 mc("NegReset", consts(Clients=["c1", "c2"], CCs=[], SVs=[], Protos=["udp"], Questions=["fresh"], Entries=["msg"], StoreCap=1,
                       MaxOps=3, TickSet=[], CleanSet=[], ReuseEvicted=True))
+mc("NegFitCharge", consts(EntryBurst=2, ChargeBeforeFit=True, **dict(BIG, Protos=["udp"], MaxOps=3, TickSet=[])))
+mc("NegFitOutcome", consts(EntryBurst=1, ChargeBeforeFit=True, **dict(BIG, Protos=["udp"], MaxOps=3, TickSet=[])))
 mc("NegShared", consts(Clients=["c1", "c2"], CCs=[], SVs=[], Protos=["udp"], Questions=["fresh"], Entries=["msg"], MaxOps=2,
                        TickSet=[], CleanSet=[], SharedKey=True))
 # ---- liveness ---------------------------------------------------------------------------------------
@@ -110,6 +117,10 @@ sim("Entry", consts(Clients=["c1", "c2"], CCs=["a"], SVs=["bare", "good"], Proto
                     Burst=3, EntryBurst=2, MaxOps=14, MaxPend=2, TickSet=[1], CleanSet=[]))
 sim("Forms", consts(Clients=["c1", "c2"], Forms=["v4", "v6m"], CCs=["a"], SVs=["bare", "good"], Protos=["udp"], Questions=["fresh"],
                     Burst=2, StoreCap=4, MaxOps=12, MaxPend=2, TickSet=[1], CleanSet=[]))
+sim("Big", consts(Clients=["c1", "c2"], CCs=[], SVs=[], Protos=["udp", "tcp"], Questions=["big1", "q1"], BigQs=["big1"], Exempts=["internal"],
+                  Burst=3, EntryBurst=1, MaxOps=14, MaxPend=2, TickSet=[1], CleanSet=[]))
+sim("Big2", consts(Clients=["c1", "c2"], CCs=["a"], SVs=["bare", "good"], Protos=["udp", "tcp"], Questions=["big1", "big2"], BigQs=["big1", "big2"],
+                   Burst=3, EntryBurst=2, MaxOps=14, MaxPend=2, TickSet=[1], CleanSet=[]))
 sim("Gate", consts(Procs=[1, 2, 3], Clients=["c1", "c2"], CCs=["a", "b"], Protos=["udp", "tcp"], Questions=["fresh"],
                    Entries=["msg", "wire", "inline"], Burst=2, MaxOps=10, MaxPend=3, TickSet=[1], CleanSet=[], Atomic="gate"))
 # ---- trace validation of recorded concurrent histories -------------------------------------------------
